@@ -223,6 +223,21 @@ def one(ctx, case, answers=None, baseline_cache={}):
     ctx.count('out_of_order_exec', min(client.out_of_order, 3))
     if summ != base:
         diff = [k for k in summ if summ[k] != base.get(k)]
+        # known finding (C01's, seen through this oracle): budget mode, fewer than n finite discrepancies -> the rows with an
+        # inf discrepancy are uninitialised memory; only those rows may differ
+        fid = None
+        if case['sampler'] == 'rejection' and case['form'] in ('quantile', 'n_sim') and diff == ['outputs']:
+            d = np.asarray(res.outputs['d'], dtype=float)
+            fin = np.isfinite(d)
+            if not fin.all():
+                def rows(o):
+                    return {k: np.frombuffer(bytes.fromhex(v), dtype=np.asarray(res.outputs[k]).dtype).reshape(np.asarray(res.outputs[k]).shape)[fin].tobytes()
+                            for k, v in o.items()}
+                if rows(summ['outputs']) == rows(base['outputs']):
+                    fid = 'inf-discrepancy-uninitialised-rows'
+        if fid:
+            ctx.fail_input(full, 'rows with an inf discrepancy (uninitialised buffer rows) differ from the sequential run', finding=fid)
+            return dict(case=full, client=client, summ=summ, res=res, pool=pool)
         ctx.fail_input(full, 'result differs from the sequential run in %s (trace %s)' % (diff, client.events[:40]),
                        {k: (base[k] if not isinstance(base[k], (dict, list)) else '...') for k in diff},
                        {k: (summ[k] if not isinstance(summ[k], (dict, list)) else '...') for k in diff})
